@@ -277,7 +277,8 @@ struct LifeHttpHandler : public Http::Handler {
     void onRequest(const Http::Request& req, Http::ResponseWriter response) override {
         auto peer = response.peer();
         { std::lock_guard<std::mutex> g(g_m); PeerLife& l = g_life[peer->getID()]; if (l.disc) l.inputAfterDisc = true; if (l.events.size() < 64) l.events += 'R'; }
-        if (req.resource() == "/armed") response.timeoutAfter(std::chrono::milliseconds(300));
+        // response time-outs of several lengths, also exactly on and around the second, armed and answered before they fire
+        if (req.resource().rfind("/armed", 0) == 0) { int ms = atoi(req.query().get("ms").value_or("300").c_str()); response.timeoutAfter(std::chrono::milliseconds(ms)); }
         if (req.resource() == "/slow") lv::msleep(150);
         if (req.resource() == "/stream") {
             // a streamed response written from inside the handler: the peer may reset while it is being flushed
@@ -302,11 +303,11 @@ struct LifeHttpHandler : public Http::Handler {
     }
     void onDisconnection(const std::shared_ptr<Tcp::Peer>& peer) override { std::lock_guard<std::mutex> g(g_m); PeerLife& l = g_life[peer->getID()]; l.disc++; l.events += 'D'; }
 };
-static const char* BEHAVIOUR[] = {"connect-close", "partial-then-close", "exchange-then-close", "half-close-then-read", "reset", "reset-with-pending-response", "silence-until-idle-timeout", "armed-timeout-answered-before", "keepalive-3-requests-then-close", "exchange-then-silence-until-idle-timeout", "slow-request-keeps-worker-busy", "partial-then-immediate-close-while-worker-busy", "send-and-half-close-at-once-while-worker-busy", "request-a-streamed-response-then-reset", "long-poll-then-leave-before-the-response-time-out"};
+static const char* BEHAVIOUR[] = {"connect-close", "partial-then-close", "exchange-then-close", "half-close-then-read", "reset", "reset-with-pending-response", "silence-until-idle-timeout", "armed-timeout-answered-before", "keepalive-3-requests-then-close", "exchange-then-silence-until-idle-timeout", "slow-request-keeps-worker-busy", "partial-then-immediate-close-while-worker-busy", "send-and-half-close-at-once-while-worker-busy", "request-a-streamed-response-then-reset", "long-poll-then-leave-before-the-response-time-out", "unread-response-then-silence-past-the-idle-time-out-then-close"};
 static std::atomic<int> g_foreign_bytes{0};
 static std::string g_foreign_detail;
 static void client_behaviour(int port, int b, bool http, Rng& r) {
-    lv::Conn c; if (!c.open_to(port, b == 5 ? 2048 : 0)) return;
+    lv::Conn c; if (!c.open_to(port, b == 5 || b == 15 ? 2048 : 0)) return;
     std::string buf;
     auto req = [&](const std::string& path) { return http ? "GET " + path + " HTTP/1.1\r\nHost: x\r\nConnection: keep-alive\r\n\r\n" : "hello " + path + "\n"; };
     // the reply must be this connection's own: state left behind by an earlier connection (e.g. its unsent response) must not surface here
@@ -324,7 +325,9 @@ static void client_behaviour(int port, int b, bool http, Rng& r) {
     case 4: c.send_all(req("/x")); lv::msleep(r.range(0, 5)); c.rst_close(); return;
     case 5: c.send_all(http ? req("/big") : "BIG\n"); lv::msleep(r.range(5, 50)); c.rst_close(); return;
     case 6: { bool eof = false; double end = lv::now() + 4.0; std::string t; while (!eof && lv::now() < end) c.read_some(t, 100, 1 << 20, &eof); } break;
-    case 7: c.send_all(req("/armed")); readReply(); break;
+    case 7: { static const int MS[] = {300, 999, 1000, 1001, 2000, 60000, 1}; c.send_all(req("/armed?ms=" + std::to_string(r.pick(MS)))); readReply(); break; }
+    case 15: {   // a response it never reads, then silence past the idle time-out and a good while longer, then it leaves
+        c.send_all(req("/big")); lv::msleep(3200); break; }
     case 10: c.send_all(http ? req("/slow") : "SLOW /x\n"); { std::string t; if (http) { lv::read_response(c, buf, 0, 3000); } else c.read_some(t, 1500); } break;
     case 11: lv::msleep(r.range(20, 90)); c.send_all(http ? "POST /x HTTP/1.1\r\nHost: x\r\nContent-Length: 50\r\n\r\nabc" : "hel"); break;   // bytes and FIN reach the busy worker together
     case 12: lv::msleep(r.range(20, 90)); c.send_all(http ? "GET /par" : "hel"); c.half_close(); lv::msleep(300); break;
@@ -368,8 +371,9 @@ static void run_c08(long cases) {
         std::vector<int> behaviours;
         std::vector<std::thread> th;
         for (int k = 0; k < nclients; k++) {
-            int b = r.range(0, 14);
+            int b = r.range(0, 15);
             if (k == 0 && r.chance(1, 2)) b = 10;
+            if (b == 15 && (!http || longTimeouts)) b = 5;
             if (g_opts.num("behaviour", -1) >= 0) b = (int)g_opts.num("behaviour", -1);
             if (!http && (b == 6 || b == 7 || b == 9)) b = r.range(0, 5);
             if (longTimeouts && (b == 6 || b == 9)) b = r.range(10, 12);   // idle time-out / response timers exist on the HTTP endpoint only
